@@ -1,11 +1,42 @@
 import SF.Lemmas.Lagf
 /- LaguerreRSI: after two zero-fill steps the four (length-≤3) deques hold the Laguerre ladder started from zeros;
-   value = CU/(CU+CD), held while CU+CD = 0. -/
+   value = CU/(CU+CD), held while CU+CD = 0; the value lies in [0,1]; at most 12 stored entries. -/
 namespace SF.LagRsi
 open SF SF.Spec
 set_option linter.unusedSectionVars false
 set_option linter.unusedSimpArgs false
 variable {α : Type} [Field α] [LinearOrder α] [IsStrictOrderedRing α] [FloatLike α] [ExactScalar α]
+
+def cucd (x0 x1 x2 x3 : α) : α × α :=
+  let up := fun (a b : α) => if b ≤ a then a - b else nat 0
+  let dn := fun (a b : α) => if b ≤ a then nat 0 else b - a
+  (up x0 x1 + up x1 x2 + up x2 x3, dn x0 x1 + dn x1 x2 + dn x2 x3)
+
+theorem model_cucd (x0 x1 x2 x3 : α) : lagRsiCuCd x0 x1 x2 x3 = cucd x0 x1 x2 x3 := by
+  unfold lagRsiCuCd cucd
+  have h0 : (nat 0 : α) = 0 := by simp [nat_eq]
+  rw [h0]
+  by_cases h1 : x1 ≤ x0 <;> by_cases h2 : x2 ≤ x1 <;> by_cases h3 : x3 ≤ x2 <;>
+    simp only [h1, h2, h3, if_true, if_false, Prod.mk.injEq, add_zero, zero_add]
+
+theorem push_two (g : α) (v : Option α) (a0 a1 a2 a3 L0 L1 L2 L3 x : α) :
+    lagRsiPush g { value := v, l0s := [a0, L0], l1s := [a1, L1], l2s := [a2, L2], l3s := [a3, L3] } x =
+      .ok (let n0 := (nat 1 - g) * x + g * L0
+           let n1 := -g * n0 + L0 + g * L1
+           let n2 := -g * n1 + L1 + g * L2
+           let n3 := -g * n2 + L2 + g * L3
+           { value := v, l0s := [a0, L0, n0], l1s := [a1, L1, n1], l2s := [a2, L2, n2], l3s := [a3, L3, n3] }) := by
+  simp [lagRsiPush, usub, getIdx, bind, Except.bind, pure, Except.pure]
+
+theorem emit_three (v : Option α) (a0 a1 a2 a3 b0 b1 b2 b3 n0 n1 n2 n3 : α) :
+    lagRsiEmit { value := v, l0s := [a0, b0, n0], l1s := [a1, b1, n1], l2s := [a2, b2, n2], l3s := [a3, b3, n3] } =
+      .ok { value := (if (cucd n0 n1 n2 n3).1 + (cucd n0 n1 n2 n3).2 == nat 0 then v
+                      else some ((cucd n0 n1 n2 n3).1 / ((cucd n0 n1 n2 n3).1 + (cucd n0 n1 n2 n3).2))),
+            l0s := [a0, b0, n0], l1s := [a1, b1, n1], l2s := [a2, b2, n2], l3s := [a3, b3, n3] } := by
+  simp only [lagRsiEmit, usub, getIdx, bind, Except.bind, pure, Except.pure, List.length_cons, List.length_nil, model_cucd]
+  by_cases hz : (cucd n0 n1 n2 n3).1 + (cucd n0 n1 n2 n3).2 = 0
+  · simp [hz, nat_eq]
+  · simp [hz, assertFinite_exact, nat_eq]
 
 /-- the spec's fold step -/
 def stepS (g : α) (acc : (α × α × α × α) × Option α) (x : α) : (α × α × α × α) × Option α :=
@@ -21,124 +52,144 @@ theorem spec_eq (N : Nat) (xs : List α) :
   simp only [Spec.laguerreRsi, stepS]
   rfl
 
-/-- a deque holding `v` as its newest element after one or two older entries -/
-def Holds (l : List α) (v : α) : Prop := ∃ p : List α, l = p ++ [v] ∧ 1 ≤ p.length ∧ p.length ≤ 2
+def specState (N : Nat) (xs : List α) : (α × α × α × α) × Option α :=
+  (xs.drop 2).foldl (stepS (nat 2 / (nat N + nat 1))) ((nat 0, nat 0, nat 0, nat 0), none)
+
+def zeros (k : Nat) : LagRsiState α :=
+  { value := none, l0s := List.replicate k (nat 0), l1s := List.replicate k (nat 0), l2s := List.replicate k (nat 0),
+    l3s := List.replicate k (nat 0) }
 
 structure Inv (N : Nat) (s : LagRsiState α) (xs : List α) : Prop where
-  hlen : s.l0s.length = s.l1s.length ∧ s.l0s.length = s.l2s.length ∧ s.l0s.length = s.l3s.length
-  hsmall : xs.length < 2 → s.l0s = List.replicate xs.length (nat 0) ∧ s.l1s = List.replicate xs.length (nat 0) ∧
-    s.l2s = List.replicate xs.length (nat 0) ∧ s.l3s = List.replicate xs.length (nat 0) ∧ s.value = none
-  hbig : 2 ≤ xs.length →
-    let st := (xs.drop 2).foldl (stepS (nat 2 / (nat N + nat 1))) ((nat 0, nat 0, nat 0, nat 0), none)
-    Holds s.l0s st.1.1 ∧ Holds s.l1s st.1.2.1 ∧ Holds s.l2s st.1.2.2.1 ∧ Holds s.l3s st.1.2.2.2 ∧ s.value = st.2
+  hsmall : xs.length < 2 → s = zeros xs.length
+  hbig : 2 ≤ xs.length → ∃ a0 a1 a2 a3 : α, lagRsiTrim s =
+    { value := (specState N xs).2, l0s := [a0, (specState N xs).1.1], l1s := [a1, (specState N xs).1.2.1],
+      l2s := [a2, (specState N xs).1.2.2.1], l3s := [a3, (specState N xs).1.2.2.2] }
+  hlen : s.l0s.length ≤ 3 ∧ s.l1s.length ≤ 3 ∧ s.l2s.length ≤ 3 ∧ s.l3s.length ≤ 3
 
-/-- after the optional pop every deque is `[older, current]` -/
-theorem holds_popped (l : List α) (v : α) (h : Holds l v) :
-    ∃ e, (if 3 ≤ l.length then l.tail else l) = [e, v] := by
-  obtain ⟨p, rfl, h1, h2⟩ := h
-  match p, h1, h2 with
-  | [a], _, _ => exact ⟨a, rfl⟩
-  | [a, b], _, _ => exact ⟨b, rfl⟩
-
-theorem holds_length (l : List α) (v : α) (h : Holds l v) : l.length = 2 ∨ l.length = 3 := by
-  obtain ⟨p, rfl, h1, h2⟩ := h
-  simp; omega
-
-/-- the value computation of one step -/
-def cucd (x0 x1 x2 x3 : α) : α × α :=
-  let up := fun (a b : α) => if b ≤ a then a - b else nat 0
-  let dn := fun (a b : α) => if b ≤ a then nat 0 else b - a
-  (up x0 x1 + up x1 x2 + up x2 x3, dn x0 x1 + dn x1 x2 + dn x2 x3)
-
-theorem model_cucd (x0 x1 x2 x3 : α) :
-    (let c1 : α × α := if x1 ≤ x0 then (x0 - x1, nat 0) else (nat 0, x1 - x0)
-     let c2 : α × α := if x2 ≤ x1 then (c1.1 + (x1 - x2), c1.2) else (c1.1, c1.2 + (x2 - x1))
-     let c3 : α × α := if x3 ≤ x2 then (c2.1 + (x2 - x3), c2.2) else (c2.1, c2.2 + (x3 - x2))
-     c3) = cucd x0 x1 x2 x3 := by
-  simp only [cucd, nat_eq, Nat.cast_zero]
-  by_cases h1 : x1 ≤ x0 <;> by_cases h2 : x2 ≤ x1 <;> by_cases h3 : x3 ≤ x2 <;>
-    (simp only [h1, h2, h3, if_true, if_false, Prod.mk.injEq]; constructor <;> first | ring | simp)
+theorem specState_snoc (N : Nat) (xs : List α) (x : α) (h : 2 ≤ xs.length) :
+    specState N (xs ++ [x]) = stepS (nat 2 / (nat N + nat 1)) (specState N xs) x := by
+  unfold specState
+  rw [List.drop_append_of_le_length h, List.foldl_append]; rfl
 
 theorem step_ok (N : Nat) (s : LagRsiState α) (xs : List α) (x : α) (h : Inv N s xs) :
     ∃ s', (lagRsiCore N).step s x = .ok s' ∧ Inv N s' (xs ++ [x]) := by
-  obtain ⟨⟨hl1, hl2, hl3⟩, hsmall, hbig⟩ := h
+  obtain ⟨hsmall, hbig, hlen⟩ := h
   by_cases hlt : xs.length < 2
-  · obtain ⟨e0, e1, e2, e3, hv⟩ := hsmall hlt
-    have hlen0 : s.l0s.length = xs.length := by rw [e0]; simp
-    have hno3 : ¬ 3 ≤ s.l0s.length := by omega
-    have hlt2 : s.l0s.length < 2 := by omega
-    refine ⟨{ s with l0s := s.l0s ++ [nat 0], l1s := s.l1s ++ [nat 0], l2s := s.l2s ++ [nat 0], l3s := s.l3s ++ [nat 0] }, ?_, ?_⟩
-    · simp only [lagRsiCore, hno3, if_false, hlt2, if_true, pure, Except.pure]
-    · refine ⟨by simp [hl1, hl2, hl3, ← hl1, ← hl2, ← hl3], fun h2 => ?_, fun h2 => ?_⟩
-      · simp only [List.length_append, List.length_singleton] at h2 ⊢
-        refine ⟨by rw [e0, List.replicate_succ']; , by rw [e1, List.replicate_succ'], by rw [e2, List.replicate_succ'],
-          by rw [e3, List.replicate_succ'], hv⟩
-      · have hx1 : xs.length = 1 := by simp at h2; omega
-        have hd : (xs ++ [x]).drop 2 = [] := by apply List.drop_eq_nil_of_le; simp [hx1]
-        simp only [hd, List.foldl_nil]
-        rw [hx1] at e0 e1 e2 e3
-        refine ⟨⟨[nat 0], by rw [e0]; rfl, by simp, by simp⟩, ⟨[nat 0], by rw [e1]; rfl, by simp, by simp⟩,
-          ⟨[nat 0], by rw [e2]; rfl, by simp, by simp⟩, ⟨[nat 0], by rw [e3]; rfl, by simp, by simp⟩, hv⟩
-  · have hge : 2 ≤ xs.length := by omega
-    obtain ⟨h0, h1, h2, h3, hv⟩ := hbig hge
-    set g : α := nat 2 / (nat N + nat 1) with hg
-    set st := (xs.drop 2).foldl (stepS g) ((nat 0, nat 0, nat 0, nat 0), none) with hst
-    obtain ⟨a0, ha0⟩ := holds_popped _ _ h0
-    obtain ⟨a1, ha1⟩ := holds_popped _ _ h1
-    obtain ⟨a2, ha2⟩ := holds_popped _ _ h2
-    obtain ⟨a3, ha3⟩ := holds_popped _ _ h3
-    rw [← hl1] at ha1; rw [← hl2] at ha2; rw [← hl3] at ha3
-    -- the new ladder values
-    set L0 := st.1.1; set L1 := st.1.2.1; set L2 := st.1.2.2.1; set L3 := st.1.2.2.2
-    set n0 := (nat 1 - g) * x + g * L0 with hn0
-    set n1 := -g * n0 + L0 + g * L1 with hn1
-    set n2 := -g * n1 + L1 + g * L2 with hn2
-    set n3 := -g * n2 + L2 + g * L3 with hn3
-    have hdrop : (xs ++ [x]).drop 2 = xs.drop 2 ++ [x] := by rw [List.drop_append_of_le_length hge]
-    have hnew : ((xs ++ [x]).drop 2).foldl (stepS g) ((nat 0, nat 0, nat 0, nat 0), none) = stepS g st x := by
-      rw [hdrop, List.foldl_append]; rfl
-    have hlad : lagLadder g st.1 [x] = (n0, n1, n2, n3) := by
-      simp only [lagLadder, List.foldl_cons, List.foldl_nil]
+  · have hs := hsmall hlt
+    subst hs
+    have htrim : lagRsiTrim (zeros (α := α) xs.length) = zeros xs.length := by
+      unfold lagRsiTrim zeros; simp; omega
+    refine ⟨zeros (xs.length + 1), ?_, ?_, ?_, ?_⟩
+    · show (let s := lagRsiTrim (zeros xs.length); if s.l0s.length < 2 then pure (lagRsiFill s) else _) = _
+      simp only [htrim]
+      rw [if_pos (by simp [zeros]; exact hlt)]
+      simp only [lagRsiFill, zeros, List.replicate_succ', pure, Except.pure]
       rfl
-    have hval : (stepS g st x) = ((n0, n1, n2, n3),
-        if (cucd n0 n1 n2 n3).1 + (cucd n0 n1 n2 n3).2 == nat 0 then st.2
-        else some ((cucd n0 n1 n2 n3).1 / ((cucd n0 n1 n2 n3).1 + (cucd n0 n1 n2 n3).2))) := by
-      simp only [stepS, hlad, cucd]
-    -- the model's step, written out on the popped two-element deques
-    by_cases hc3 : 3 ≤ s.l0s.length
-    · simp only [if_pos hc3] at ha0 ha1 ha2 ha3
-      refine ⟨{ value := (if (cucd n0 n1 n2 n3).1 + (cucd n0 n1 n2 n3).2 == nat 0 then s.value
-                          else some ((cucd n0 n1 n2 n3).1 / ((cucd n0 n1 n2 n3).1 + (cucd n0 n1 n2 n3).2))),
-                l0s := [a0, L0, n0], l1s := [a1, L1, n1], l2s := [a2, L2, n2], l3s := [a3, L3, n3] }, ?_, ?_⟩
-      · simp only [lagRsiCore, hc3, if_true, ha0, ha1, ha2, ha3, List.length_cons, List.length_nil, usub, getIdx, bind,
-          Except.bind, pure, Except.pure, ← hg]
-        simp only [Nat.reduceLeDiff, Nat.lt_irrefl, if_true, if_false, List.cons_append, List.nil_append,
-          List.getElem?_cons_succ, List.getElem?_cons_zero, Nat.reduceSub, Nat.reduceAdd, List.length_cons, List.length_nil,
-          show ¬ (0 + 1 + 1 < 2) by omega]
-        have := model_cucd n0 n1 n2 n3
-        simp only at this
-        rw [this]
-        by_cases hz : (cucd n0 n1 n2 n3).1 + (cucd n0 n1 n2 n3).2 = 0 <;> simp [hz, assertFinite_exact, bind, Except.bind, pure, Except.pure]
-      · refine ⟨by simp, fun h2 => by simp at h2; omega, fun _ => ?_⟩
-        rw [hnew, hval]
-        exact ⟨⟨[a0, L0], rfl, by simp, by simp⟩, ⟨[a1, L1], rfl, by simp, by simp⟩, ⟨[a2, L2], rfl, by simp, by simp⟩,
-          ⟨[a3, L3], rfl, by simp, by simp⟩, by simp only [hv]⟩
-    · simp only [if_neg hc3] at ha0 ha1 ha2 ha3
-      refine ⟨{ value := (if (cucd n0 n1 n2 n3).1 + (cucd n0 n1 n2 n3).2 == nat 0 then s.value
-                          else some ((cucd n0 n1 n2 n3).1 / ((cucd n0 n1 n2 n3).1 + (cucd n0 n1 n2 n3).2))),
-                l0s := [a0, L0, n0], l1s := [a1, L1, n1], l2s := [a2, L2, n2], l3s := [a3, L3, n3] }, ?_, ?_⟩
-      · simp only [lagRsiCore, hc3, if_false, ha0, ha1, ha2, ha3, List.length_cons, List.length_nil, usub, getIdx, bind,
-          Except.bind, pure, Except.pure, ← hg]
-        simp only [Nat.reduceLeDiff, Nat.lt_irrefl, if_true, if_false, List.cons_append, List.nil_append,
-          List.getElem?_cons_succ, List.getElem?_cons_zero, Nat.reduceSub, Nat.reduceAdd, List.length_cons, List.length_nil,
-          show ¬ (0 + 1 + 1 < 2) by omega]
-        have := model_cucd n0 n1 n2 n3
-        simp only at this
-        rw [this]
-        by_cases hz : (cucd n0 n1 n2 n3).1 + (cucd n0 n1 n2 n3).2 = 0 <;> simp [hz, assertFinite_exact, bind, Except.bind, pure, Except.pure]
-      · refine ⟨by simp, fun h2 => by simp at h2; omega, fun _ => ?_⟩
-        rw [hnew, hval]
-        exact ⟨⟨[a0, L0], rfl, by simp, by simp⟩, ⟨[a1, L1], rfl, by simp, by simp⟩, ⟨[a2, L2], rfl, by simp, by simp⟩,
-          ⟨[a3, L3], rfl, by simp, by simp⟩, by simp only [hv]⟩
+    · intro h2; simp at h2 ⊢
+    · intro h2
+      have hx1 : xs.length = 1 := by simp at h2; omega
+      have hd : (xs ++ [x]).drop 2 = [] := by apply List.drop_eq_nil_of_le; simp [hx1]
+      refine ⟨nat 0, nat 0, nat 0, nat 0, ?_⟩
+      simp [specState, hd, hx1, lagRsiTrim, zeros, List.replicate]
+    · simp [zeros]; omega
+  · have hge : 2 ≤ xs.length := by omega
+    obtain ⟨a0, a1, a2, a3, ht⟩ := hbig hge
+    set st := specState N xs with hst
+    set g : α := nat 2 / (nat N + nat 1) with hg
+    have hstep : (lagRsiCore N).step s x = (lagRsiPush g (lagRsiTrim s) x >>= lagRsiEmit) := by
+      show (let s := lagRsiTrim s; if s.l0s.length < 2 then pure (lagRsiFill s) else _) = _
+      simp only [ht]
+      rw [if_neg (by simp)]
+    rw [hstep, ht, push_two]
+    simp only [bind, Except.bind]
+    rw [emit_three]
+    refine ⟨_, rfl, ?_, ?_, ?_⟩
+    · intro h2; simp at h2; omega
+    · intro _
+      refine ⟨st.1.1, st.1.2.1, st.1.2.2.1, st.1.2.2.2, ?_⟩
+      rw [specState_snoc N xs x hge, ← hst, ← hg]
+      simp [lagRsiTrim, stepS, lagLadder, cucd]
+    · simp
+
+theorem init_inv (N : Nat) : Inv N (lagRsiCore (α := α) N).init [] :=
+  ⟨fun _ => by simp [lagRsiCore, zeros], fun h => by simp at h, by simp [lagRsiCore]⟩
+
+theorem run_ok (N : Nat) (xs : List α) :
+    ∃ s, (lagRsiCore (α := α) N).run (lagRsiCore (α := α) N).init xs = .ok s ∧ Inv N s xs :=
+  Core.run_invariant_init (lagRsiCore N) (Inv N) (init_inv N) (fun s pre x h => step_ok N s pre x h) xs
+
+theorem trim_value (s : LagRsiState α) : (lagRsiTrim s).value = s.value := by
+  unfold lagRsiTrim; split <;> rfl
+
+theorem out_eq (N : Nat) (s : LagRsiState α) (xs : List α) (h : Inv N s xs) :
+    (lagRsiCore N).out s = .ok (Spec.laguerreRsi N xs) := by
+  show pure s.value = _
+  rw [spec_eq]
+  by_cases hlt : xs.length < 2
+  · rw [h.hsmall hlt]
+    have hd : xs.drop 2 = [] := List.drop_eq_nil_of_le (by omega)
+    simp [zeros, hd, pure, Except.pure]
+  · obtain ⟨a0, a1, a2, a3, ht⟩ := h.hbig (by omega)
+    have := trim_value s
+    rw [ht] at this
+    simp only at this
+    rw [← this]; rfl
+
+/-- LaguerreRSI: every `last()` equals the batch definition (ladder from zeros after two fill steps, CU/(CU+CD), held) -/
+theorem outAfter_eq (N : Nat) (xs : List α) :
+    (lagRsiCore (α := α) N).outAfter xs = .ok (Spec.laguerreRsi N xs) :=
+  Core.outAfter_of_inv _ (Inv N) (Spec.laguerreRsi N) (run_ok N) (fun s xs h => out_eq N s xs h) xs
+
+/-- at most three entries in each of the four ladder deques, whatever the stream length -/
+theorem size_le (N : Nat) (xs : List α) (s : LagRsiState α)
+    (h : (lagRsiCore (α := α) N).run (lagRsiCore (α := α) N).init xs = .ok s) : (lagRsiCore (α := α) N).size s ≤ 12 := by
+  obtain ⟨s', hs, hi⟩ := run_ok (α := α) N xs
+  rw [h] at hs; cases hs
+  obtain ⟨h0, h1, h2, h3⟩ := hi.hlen
+  show s.l0s.length + s.l1s.length + s.l2s.length + s.l3s.length ≤ 12
+  omega
+
+/-! range: CU, CD ≥ 0, so the held value lies in [0,1] -/
+theorem cucd_nonneg (x0 x1 x2 x3 : α) : 0 ≤ (cucd x0 x1 x2 x3).1 ∧ 0 ≤ (cucd x0 x1 x2 x3).2 := by
+  have up : ∀ a b : α, 0 ≤ (if b ≤ a then a - b else nat 0) := by
+    intro a b; split
+    · linarith
+    · simp [nat_eq]
+  have dn : ∀ a b : α, 0 ≤ (if b ≤ a then nat 0 else b - a) := by
+    intro a b; split
+    · simp [nat_eq]
+    · linarith
+  constructor
+  · exact add_nonneg (add_nonneg (up _ _) (up _ _)) (up _ _)
+  · exact add_nonneg (add_nonneg (dn _ _) (dn _ _)) (dn _ _)
+
+theorem stepS_range (g : α) (acc : (α × α × α × α) × Option α) (x : α)
+    (h : ∀ v, acc.2 = some v → 0 ≤ v ∧ v ≤ 1) : ∀ v, (stepS g acc x).2 = some v → 0 ≤ v ∧ v ≤ 1 := by
+  intro v hv
+  have hs : (stepS g acc x).2 =
+      (let c := cucd (lagLadder g acc.1 [x]).1 (lagLadder g acc.1 [x]).2.1 (lagLadder g acc.1 [x]).2.2.1 (lagLadder g acc.1 [x]).2.2.2
+       if c.1 + c.2 == nat 0 then acc.2 else some (c.1 / (c.1 + c.2))) := rfl
+  rw [hs] at hv
+  obtain ⟨hcu, hcd⟩ := cucd_nonneg (lagLadder g acc.1 [x]).1 (lagLadder g acc.1 [x]).2.1 (lagLadder g acc.1 [x]).2.2.1 (lagLadder g acc.1 [x]).2.2.2
+  generalize cucd (lagLadder g acc.1 [x]).1 (lagLadder g acc.1 [x]).2.1 (lagLadder g acc.1 [x]).2.2.1 (lagLadder g acc.1 [x]).2.2.2 = c at hv hcu hcd
+  simp only at hv
+  by_cases hz : c.1 + c.2 = 0
+  · rw [if_pos (by simp [hz, nat_eq])] at hv
+    exact h v hv
+  · rw [if_neg (by simp [hz, nat_eq])] at hv
+    cases hv
+    have hpos : 0 < c.1 + c.2 := lt_of_le_of_ne (add_nonneg hcu hcd) (Ne.symm hz)
+    exact ⟨div_nonneg hcu hpos.le, by rw [div_le_one hpos]; linarith⟩
+
+/-- LaguerreRSI ∈ [0,1] for every history -/
+theorem range (N : Nat) (xs : List α) (v : α) (h : Spec.laguerreRsi N xs = some v) : 0 ≤ v ∧ v ≤ 1 := by
+  rw [spec_eq] at h
+  suffices H : ∀ (l : List α) (acc : (α × α × α × α) × Option α), (∀ v, acc.2 = some v → 0 ≤ v ∧ v ≤ 1) →
+      ∀ v, (l.foldl (stepS (nat 2 / (nat N + nat 1))) acc).2 = some v → 0 ≤ v ∧ v ≤ 1 from
+    H _ _ (by intro v hv; cases hv) v h
+  intro l
+  induction l with
+  | nil => intro acc ha v hv; exact ha v hv
+  | cons x l ih => intro acc ha v hv; exact ih _ (stepS_range _ acc x ha) v hv
 
 end SF.LagRsi
